@@ -30,7 +30,7 @@ ASSUMPTIONS = [
     "polygon coordinates are commensurate with the feature size (origin offset <= 10 lattice steps): the reader's tolerance is 1e-12 x the smallest feature, so a dynamic range above ~1e4 drowns it in rounding noise (same root cause as the recorded tolerance findings)",
 ]
 REQUIRED_CLASSES = ["exhaustive", "random_grid", "polygon_stog", "polygon_nonstog"]
-REQUIRED_COUNTERS = ["existence_compared", "instances_checked", "polygons_decomposed", "polygons_refused", "module_recognition_checked"]
+REQUIRED_COUNTERS = ["vertex_buffers_edited_in_place_and_decomposed_again", "vertices_as_one_2d_buffer", "existence_compared", "instances_checked", "polygons_decomposed", "polygons_refused", "module_recognition_checked"]
 SOFT_DEADLINE = {"quick": 240, "thorough": 5400}
 WATCHDOG = {"quick": 900, "thorough": 9000}
 
@@ -355,7 +355,29 @@ def check(case, ctx):
     pts = case["vertices"]
     ctx.nontrivial(case["cells"] >= 2)
     verts = [_Point(p[0], p[1]) for p in pts] if case["as"] == "point" else [_np.array(p, dtype=float) for p in pts]
+    if case["as"] == "ndarray" and len(pts) % 2 == 0 and (len(pts) // 2) % 2 == 0:
+        verts = _np.array(pts, dtype=float)          # one 2-D buffer instead of a list of rows
+        ctx.count("vertices_as_one_2d_buffer")
     ok, rects = ctx.call(_decomp, verts)
+    if case["as"] == "ndarray":
+        # the caller's vertex buffer is edited in place (mirrored, stretched, moved) and decomposed again: the answer must be the one
+        # a fresh object with the same numbers gets
+        mx = max(p[0] for p in pts)
+        if isinstance(verts, list):
+            for row in verts:
+                row[0] = (mx - row[0]) * 2.0
+                row[1] = row[1] * 0.5 + 1.0
+            fresh = [_np.array([float(r[0]), float(r[1])]) for r in verts]
+        else:
+            verts[:, 0] = (mx - verts[:, 0]) * 2.0
+            verts[:, 1] = verts[:, 1] * 0.5 + 1.0
+            fresh = _np.array(verts.tolist(), dtype=float)
+        okb, rb = ctx.call(_decomp, verts)
+        okf, rf = ctx.call(_decomp, fresh)
+        ctx.count("vertex_buffers_edited_in_place_and_decomposed_again")
+        if okb != okf or (okb and sorted(map(tuple, rb)) != sorted(map(tuple, rf))) or okb != ok:
+            ctx.violation("stale_vertex_buffer", f"polygon {pts} as ndarray, edited in place (x -> 2*({mx}-x), y -> y/2+1): the same buffer gives "
+                                                 f"{rb if okb else type(rb).__name__}, a fresh object with the same numbers {rf if okf else type(rf).__name__}, before the edit ok={ok}")
     if case["cls"] == "polygon_nonstog":
         ctx.count("polygons_refused")
         if ok:
